@@ -8,10 +8,10 @@ from harness.impl import fordrun as F
 
 IMPORTS = "From Ford Require Import Base.Str Sem.Access Corr.C04."
 CASE_T = "case"
-THEOREMS = ["C04_partial", "C04_refuted_late_default", "C04_refuted_protected_private",
+THEOREMS = ["C04_statement_refuted", "C04_partial", "C04_refuted_late_default", "C04_refuted_protected_private",
             "C04_refuted_protected_lost", "C04_refuted_repeated_generic", "C04_refuted_operator_spelling",
-            "C04_types", "C04_types_in_scope", "C04_submodule_private", "C04_interface_procs",
-            "C04_constructor_follows_type", "C04_protected_recorded", "C04_no_error_when_structured"]
+            "C04_protected_recorded", "C04_types", "C04_types_in_scope", "C04_submodule_private",
+            "C04_interface_procs", "C04_raises_iff_misplaced"]
 ALL = ["public", "private", "protected"]
 REGIONS = {1: "late-default", 2: "protected-single-keyword", 4: "repeated-identifier", 8: "blank-in-identifier"}
 
@@ -102,7 +102,7 @@ def judge_cases(chk, cases, texts, impl, what):
                 for bit, key in REGIONS.items():
                     if reg & bit:
                         stats["region:" + key] += 1
-                        if not chk.known(key, True):
+                        if not any(f["key"] == key and f.get("status", "open") == "open" for f in chk.findings):
                             chk.violation("failing-input", payload, True)
         if code & 1:
             stats["model-mismatch"] += 1
